@@ -1,6 +1,6 @@
 (* Uniform executable entry point of the model for the correspondence check:
    run_case tag args = the observable outputs the implementation must produce for the same case. *)
-From DDSV Require Import base.Machine model.View model.Layout model.DecoderSM model.DecodeScript model.Formats gen.GenFormats.
+From DDSV Require Import base.Machine model.View model.Layout model.DecoderSM model.EncoderSM model.DecodeScript model.Formats gen.GenFormats.
 
 Local Open Scope Z_scope.
 
@@ -149,12 +149,48 @@ Definition run_c06 (a : list Z) : list Z :=
   | _ => [-99]
   end.
 
+(* ---- C11 / C10: [header (10); pixel info (5); header_len; generate0; mul x; mul y; (kind; flag)*] *)
+Definition enc_err_code (x : enc_err) : Z :=
+  match x with XTooManySurfaces => 1 | XUnexpectedSurfaceSize => 2 | XCancelled => 3 | XInvalidSize => 4 | XMissingSurfaces => 5 end.
+Definition out_enc (e : encoder) : list Z :=
+  match iter_current (e_it e) with
+  | None => [-2]
+  | Some None => [nz (e_bytes e); 0; 0; 0; 0; 0]
+  | Some (Some si) => [nz (e_bytes e); 1; nz (si_w si); nz (si_h si); nz (si_len si); bz (negb (si_level si =? 0)%N)]
+  end.
+Definition mk_enc_op (k f : Z) : enc_op :=
+  if k =? 0 then EWrite (f =? 1) (f =? 2) else if k =? 1 then EToggle else EFinish.
+Fixpoint mk_enc_ops (l : list Z) : list enc_op :=
+  match l with k :: f :: r => mk_enc_op k f :: mk_enc_ops r | _ => [] end.
+Fixpoint run_enc_ops (e : encoder) (ops : list enc_op) : list Z :=
+  match ops with
+  | [] => []
+  | op :: rest =>
+      let fin := match op with EFinish => true | _ => false end in
+      match enc_step e op with
+      | EOk e' => if fin then [0] else (0 :: out_enc e') ++ run_enc_ops e' rest
+      | EErr x e' => if fin then [enc_err_code x] else (enc_err_code x :: out_enc e') ++ run_enc_ops e' rest
+      | EPanic => [-2]
+      end
+  end.
+Definition run_c11 (a : list Z) : list Z :=
+  match a with
+  | dx10 :: w :: h :: dp :: d :: mips :: cube10 :: dim :: array :: caps2 :: pk :: pa :: pb :: pc :: pd :: hl :: g0 :: mx :: my :: ops =>
+    match from_header_with (mk_lheader dx10 w h dp d mips cube10 dim array caps2) (mk_pixel_info pk pa pb pc pd) with
+    | LErr e => [0; err_code e]
+    | LOk L => let e0 := enc_init L (zn hl) (negb (g0 =? 0)) (zn mx, zn my) in
+               (1 :: out_enc e0) ++ run_enc_ops e0 (mk_enc_ops ops)
+    end
+  | _ => [-99]
+  end.
+
 Definition run_case (tag : Z) (args : list Z) : list Z :=
   match tag with
   | 20 => run_c20 args
   | 2 => run_c02 args
   | 8 => run_c08 args
   | 6 => run_c06 args
+  | 11 => run_c11 args
   | _ => [-98]
   end.
 
